@@ -5,21 +5,29 @@ from tools.harness import common, planwalk as pw, plangen
 ID = 'C09'
 TARGETS = ['MindsVerif.Props.C09']
 P = 'MindsVerif.Props.C09.'
-THEOREMS = [P + 'C09_partial', P + 'C09_plan_select', P + 'C09_cte_lookup', P + 'C09_witness_cte_keys', P + 'C09_add_step', P + 'C09_join', P + 'C09_join_unrepaired',
-            P + 'C09_error_class', P + 'C09_witness_1', P + 'C09_witness_1_not', P + 'C09_witness_2_not',
-            P + 'C09_witness_3_not']
+THEOREMS = [P + 'C09_partial', P + 'C09_plan_select', P + 'C09_add_step', P + 'C09_join', P + 'C09_error_class',
+            P + 'C09_cte_lookup', P + 'C09_cte_keys_necessary',
+            # history / regression: the former add_plan_step (fixed = false) and the live one on the same inputs
+            P + 'C09_join_unrepaired', P + 'C09_regress_unrepaired_plan', P + 'C09_regress_unrepaired_1',
+            P + 'C09_regress_unrepaired_2', P + 'C09_regress_unrepaired_3', P + 'C09_regress_repaired_plan',
+            P + 'C09_regress_repaired_1', P + 'C09_regress_repaired_3']
 ASSUME = [
-    'theorems cover QueryPlan.add_step, the step-stack / partition bookkeeping of PlanJoinTablesQuery, and the step '
-    'emission of plan_select dispatch, plan_union, plan_cte, nested selects (Parameter(Result)), plan_integration_select, '
-    'plan_api_db_select, plan_integration_select_with_functions, plan_select_from_predictor / plan_project, '
-    'plan_nested_select, native / data FROM, plan_sub_select, the time-series planner and from_query with the DML planners, '
-    'over a skeleton language (hand models Model/Plan.lean, Model/PlanQ.lean; tie = skeleton-first correspondence stream)',
+    'theorems cover QueryPlan.add_step, the step-stack / partition bookkeeping of PlanJoinTablesQuery (live variant: '
+    'close_partition before a step that cannot be partitioned; pinned by the obligation pin:add_plan_step-variant-repaired), '
+    'the name dictionary of plan_cte / get_integration_select_step, and the step emission of plan_select dispatch, plan_union, '
+    'plan_cte, nested selects (Parameter(Result)), plan_integration_select, plan_api_db_select, '
+    'plan_integration_select_with_functions, plan_select_from_predictor / plan_project, plan_nested_select, native / data FROM, '
+    'plan_sub_select, the time-series planner and from_query with the DML planners, over a skeleton language '
+    '(hand models Model/Plan.lean, Model/PlanQ.lean; tie = skeleton-first correspondence streams plan_join and cte_lookup; '
+    'every constructor of the skeleton language occurs in the stream)',
     'WHICH branch a real query x catalog takes (get_query_info, check_single_integration, clause presence, which conditions '
     'become filters) is NOT modelled: it is chosen by the generator of the correspondence stream; outside that stream the '
     'invariant and the exception class are checked directly on real plans by the impl-level probe',
     'abstraction of a real step to (class, step_num, referenced results) walks every attribute of the step '
     '(ASTs, dicts, lists, sub-steps); "the answer" = the step returned by the outermost plan_select / '
     'check_single_integration call, observed by wrapping those two methods on the planner instance',
+    'C09_error_class (from any plan) assumes that the planners of sub-select operands raise user-level errors only; '
+    'C09_join_unrepaired and the C09_regress_unrepaired_* theorems describe the FORMER add_plan_step, not live code',
 ]
 
 
@@ -40,10 +48,14 @@ def standalone(sql, cat):
         return None, None
 
 
-def impl_line(sql, cat):
-    """canonical line for the real planner on (sql, catalog)"""
+def impl_line(case, cat):
+    """canonical line for the real planner on a case (SQL text, or text + an AST edit) and a catalog"""
+    sql = case['sql'] if isinstance(case, dict) else case
     try:
         q = pw.parse(sql)
+        if isinstance(case, dict) and case.get('inject_data'):
+            from mindsdb_sql.parser.ast import Data
+            q.from_table = Data([{'x': 1, 'id': 1}, {'x': 2, 'id': 2}])   # FROM <injected data>
     except Exception as e:
         return 'parse-fail %s' % str(e)[:80], None
     r = pw.run_planner(q, cat)
@@ -116,33 +128,44 @@ def run(chk):
         cases.append(c)
         lines.append(c['line'])
     try:
-        # the model is run as the pinned add_plan_step ('0 …') and as the repaired one ('1 …', theorem C09_fixed);
-        # the implementation has to agree with ONE of the two on every case
+        # the model of the live code is the REPAIRED add_plan_step ('1 …': close_partition on the fall-through path,
+        # theorems C09_partial / C09_plan_select / C09_join).  The variant without it ('0 …', C09_join_unrepaired) is run
+        # only to pin which of the two the implementation follows on the cases where they differ.
         outs0 = common.lean_run('Plan', lines) if lines else []
         outs1 = common.lean_run('Plan', ['1' + l[1:] for l in lines]) if lines else []
-        ccat = plangen.catalogs()
+        ccat = plangen.probe_catalogs()
         impl = []
         for c in cases:
-            i, r = impl_line(c['sql'], ccat[c['cat']])
+            i, r = impl_line(c, ccat[c['cat']])
             impl.append(i)
             chk.count(('corr', c['sql'], c['cat']))
             key = 'corr/%s/%s' % (c['shape'].split(':')[0], (i.split(' ')[0] + ' ' + i.split(' ')[1]) if i.startswith('err') else 'plan')
             dist[key] = dist.get(key, 0) + 1
-        res = {}
-        for mode, outs in (('pinned', outs0), ('repaired', outs1)):
-            diverged, first = 0, None
-            for c, o, i in zip(cases, outs, impl):
-                m = pw.canon_model_line(o)
-                if m != i:
-                    diverged += 1
-                    if first is None:
-                        first = dict(sql=c['sql'], catalog=c['cat'], model_input=c['line'], model=m, impl=i, model_variant=mode)
-            res[mode] = (diverged, first)
-        mode = 'pinned' if res['pinned'][0] <= res['repaired'][0] else 'repaired'
-        dist['model_variant_matched'] = mode
-        dist['cases_where_variants_differ'] = sum(1 for a, b in zip(outs0, outs1) if a != b)
-        outs = outs0 if mode == 'pinned' else outs1
-        chk.corr_result('plan_join', len(cases), res[mode][0], res[mode][1], dist)
+        diverged, first = 0, None
+        for c, o, i in zip(cases, outs1, impl):
+            m = pw.canon_model_line(o)
+            if m != i:
+                diverged += 1
+                if first is None:
+                    first = dict(sql=c['sql'], catalog=c['cat'], model_input='1' + c['line'][1:], model=m, impl=i,
+                                 model_variant='repaired')
+        differ = [(c, pw.canon_model_line(a), pw.canon_model_line(b), i) for c, a, b, i in zip(cases, outs0, outs1, impl)
+                  if pw.canon_model_line(a) != pw.canon_model_line(b)]
+        as_unrepaired = [d for d in differ if d[3] == d[1]]
+        as_repaired = [d for d in differ if d[3] == d[2]]
+        dist['cases_where_variants_differ'] = len(differ)
+        dist['of_these_impl_like_repaired'] = len(as_repaired)
+        dist['of_these_impl_like_unrepaired'] = len(as_unrepaired)
+        outs = outs1
+        chk.corr_result('plan_join', len(cases), diverged, first, dist)
+        # live-variant pin: on the cases that tell the two variants apart the implementation follows the repaired one
+        chk.oblige('pin:add_plan_step-variant-repaired', 'correspondence',
+                   len(differ) > 0 and len(as_repaired) == len(differ),
+                   'variants differ on %d cases; implementation like repaired on %d, like unrepaired on %d%s' % (
+                       len(differ), len(as_repaired), len(as_unrepaired),
+                       '' if not as_unrepaired else '; e.g. %s' % json.dumps(dict(sql=as_unrepaired[0][0]['sql'],
+                                                                                 catalog=as_unrepaired[0][0]['cat'],
+                                                                                 impl=as_unrepaired[0][3]))[:600]))
         for c, o in list(zip(cases, outs))[:3]:
             chk.samples.append(dict(sql=c['sql'], catalog=c['cat'], model=pw.canon_model_line(o)))
     except Exception as e:
@@ -196,8 +219,11 @@ def run(chk):
     chk.samples.append(dict(theorem='C09_partial : ∀ q : Stmt, match fromQuery true q [] with | ok (plan, x) => stepsOK 0 plan ∧ '
                                     '[] <+: plan ∧ 0 < plan.length ∧ x = top (plan.length - 1) | error e => IsUserErr e'))
     chk.samples.append(dict(theorem='C09_plan_select : stepsOK 0 plan → env.all (refOKTop plan.length) → the same for (den true s env).1 plan; '
-                                    'C09_join / C09_join_unrepaired (noFallThrough) : the join planner over planner-valued sub-selects; '
-                                    'C09_error_class : no internal error from any plan; C09_add_step'))
+                                    'C09_join : stepsOK 0 plan → TreeOK plan.length t → params ok → the same for planJoin true t wrap params plan; '
+                                    'C09_cte_lookup : (∀ m, k.test m = k.fetch m) → … → the same for planTableRef k dict name params plan; '
+                                    'C09_error_class : leavesAll OperandNoInt t → planJoinTables fixed t plan is ok or a user-level error; C09_add_step'))
+    chk.samples.append(dict(theorem='history: C09_join_unrepaired (former add_plan_step, under noFallThrough), C09_regress_unrepaired_plan / _1 / _2 / _3 '
+                                    '(what it emitted in the excluded class), C09_regress_repaired_plan / _1 / _3 (the live variant on the same inputs)'))
     return chk.finish(assumptions=ASSUME)
 
 
